@@ -263,6 +263,11 @@ def get_doc(log, docs, index):
             "DOCUMENT_INDEX is too high; the maximum zero-based index is {}"
             " when the document count is {}."
             ).format(max_index, doc_count), 1)
+    if index < -doc_count:
+        log.critical((
+            "DOCUMENT_INDEX is too low; the minimum index is {} when the"
+            " document count is {}."
+            ).format(-doc_count, doc_count), 1)
     return docs[index]
 
 # pylint: disable=locally-disabled,too-many-locals
